@@ -31,16 +31,21 @@ claim("C01",
       "Coq proof of the codec/lexer layers + in-Coq reader model vs implementation correspondence + independent-encoder oracle",
       "DESIGN.md section 7, C01")
 claim("C02",
-      "Proof (partial) + exhaustive correspondence: theorems about the mechanism model of read_segment_objects "
-      "(Props/C02.v: index cache transparency; positional update equals update-by-path under the no-duplicate invariant; "
-      "explicit re-encoding reproduces the object list). The implementation is checked on ALL encodings of 2 segments x 2 "
-      "channels and (thorough) all 35 937 of 3 segments x 2 channels, plus sampled larger streams: each valid stream reads "
-      "like its reference meaning, like its fully explicit re-encoding, and lazily like eagerly; forbidden encodings raise; "
-      "the Coq reader model is evaluated on every stream.",
+      "Proof + exhaustive correspondence. Theorems about the mechanism model of read_segment_objects (Props/C02.v, 31 "
+      "statements, closed): the stale positional index map is harmless (mechanism = update-by-path under no-duplicate "
+      "hypotheses shown necessary by counterexamples); inheritance_transparent: for every segment stream the metadata "
+      "pass on the fully explicit re-encoding yields the same object lists, chunk counts, lengths, types and properties "
+      "(also stated on the serialised BYTES of both files via rd_metadata_ser); the three forbidden encodings are "
+      "rejected; index cache transparency. Values are C01's decoder layer. The implementation is checked on ALL "
+      "encodings of 2 segments x 2 channels and (thorough) all 35 937 of 3 x 2, plus sampled larger streams: each valid "
+      "stream reads like its reference meaning, like its explicit re-encoding, and lazily like eagerly; forbidden ones "
+      "raise; the Coq reader model is evaluated on every stream.",
       _READER_NOTE + "Aliasing between segment objects is not expressible in the pure model; retroactive mutation is "
-      "caught by the lazy/eager/explicit comparison on the implementation.",
-      "Coq proof on the state-machine model + exhaustive small-bound enumeration against implementation and model",
-      "DESIGN.md section 7, C02")
+      "caught by the lazy/eager/explicit comparison on the implementation. The corner 'no data then matches previous' "
+      "for a never-indexed object is excluded by a visible hypothesis (DESIGN.md 13.2).",
+      "Coq proof on the state-machine model (multi-segment simulation) + exhaustive small-bound enumeration against "
+      "implementation and model",
+      "DESIGN.md section 7 C02, 13.3")
 claim("C03",
       "Proof (partial) + differential run: model-level agreement of access paths is a corollary of the lazy-read theorems "
       "(Props/C04.v) and of the receiver concatenation lemma (Props/C03.v); every access path of the public API in every "
